@@ -126,12 +126,11 @@ def _compute_degree_iterative(expr: Expression) -> Optional[int]:
             result_stack.append(1)
             continue
 
-        # Vector expressions - these have known degrees
-        if isinstance(node, LinearCombination):
-            result_stack.append(1)
-            continue
-        if isinstance(node, VectorSum):
-            result_stack.append(1)
+        # Vector expressions - degree 1 over plain variables; over element
+        # expressions (c @ VectorExpression([...])) the elements decide, exactly
+        # as in the recursive version (elements are shallow)
+        if isinstance(node, (LinearCombination, VectorSum)):
+            result_stack.append(_compute_degree_impl(node))
             continue
         if isinstance(node, DotProduct):
             result_stack.append(2)
